@@ -93,7 +93,7 @@ def run(model, col, tier):
     set_attrs, set_methods = set_typed_sources(model)
     col.note("set-typed fields", sorted(f"{c}.{a}" for c, a in set_attrs))
     col.note("set-returning methods/properties", sorted(f"{c}.{n}" for c, n in set_methods))
-    col.floor("R18.1", "set-typed fields", len(set_attrs), 5)
+    col.floor("R18.1", "set-typed fields", len(set_attrs), 4)
     attr_names = {a for _, a in set_attrs}
     meth_names = {n for _, n in set_methods}
     # ---------------- R18.1 ------------------------------------------------------
